@@ -112,6 +112,13 @@ static Plan gen_shape(u64 seed) {
         p.ops.push_back(o);
         if (r.chance(1, 6)) p.ops.push_back(mk("destroy_seg", {i64(r.below(8))}));
     }
+    if (r.chance(1, 2500) && !g_pool.info[font].big && !g_pool.info[font].cps.empty()) {
+        // one very long text (more than 65536 characters): counters and indices that silently assume 16 bits
+        Op o; o.kind = "probe_seg"; o.a = {0, 0, i64(1 << r.below(3)), i64(r.below(2)), 0};
+        const std::vector<u32> &cps = g_pool.info[font].cps; u32 a = r.pick(cps), b = r.pick(cps); size_t n = 65600 + r.below(3000);
+        for (size_t k = 0; k < n; ++k) o.text.push_back(k % 7 == 6 ? 0x20 : (k & 1 ? a : b));
+        p.ops.push_back(o);
+    }
     p.ops.push_back(mk("destroy_face", {0}));
     return p;
 }
@@ -162,7 +169,7 @@ static void gen_history(Rng &r, const std::string &font, std::vector<Op> &ops, u
         else if (k < 70) ops.push_back(mk("fval_destroy", {i64(r.below(6))}));
         else if (k < 78) ops.push_back(mk("label", {face, i64(r.below(64)), i64(r.below(4)) - 1, i64(1 << r.below(3)), r.chance(1, 2) ? 0x0409 : i64(r.below(0x10000))}));
         else if (k < 86) { Op o = mk("face_query", {face, i64(r.below(9)), i64(r.chance(1, 2) ? r.below(40) : u32(r.next()))}); if (o.a[1] == 7) o.text = sample_cps(r, font, 8); ops.push_back(o); }
-        else if (k < 90) ops.push_back(mk("make_font", {face, i64(16 * (1 + r.below(300)))}));
+        else if (k < 90) ops.push_back(mk("make_font", {face, i64(16 * (1 + r.below(300))), r.chance(1, 3) ? 1 : 0}));
         else if (k < 92) ops.push_back(mk("destroy_font", {i64(r.below(4))}));
         else if (allow_just) gen_just_ops(r, ops, 1 + r.below(3), i64(r.below(6)));
         else { Op o = mk("face_query", {face, 9, 0}); ops.push_back(o); }
@@ -188,9 +195,13 @@ static Plan gen_hist(u64 seed) {
     }
     p.ops.push_back(mf);
     Op rep = mk("face_query", {0, 9, 0}); rep.s = "report"; p.ops.push_back(rep);
+    const bool shared_font = r.chance(1, 2);      // the probe uses a font that lived through the history (font-level caches)
+    if (shared_font) { Op pf = mk("make_font", {0, i64(16 * (6 + r.below(120))), r.chance(1, 2) ? 1 : 0}); pf.s = "probe-font"; p.ops.push_back(pf); }
     gen_history(r, font, p.ops, r.below(g_tier ? 41 : 25), 1, true);
     Op pr = gen_probe(r, font, text_max(r)); pr.s = "probe";
+    if (pr.a[1] > 0 && r.chance(1, 3)) pr.a[1] |= (1 << 20);      // hinted font (advance callback = pure function of the glyph id)
     if (r.chance(1, 2)) { std::vector<const Op *> withtext; for (auto &o : p.ops) if (!o.text.empty() && (o.kind == "make_seg" || o.kind == "probe_seg")) withtext.push_back(&o); if (!withtext.empty()) pr.text = withtext[r.below(u32(withtext.size()))]->text; }
+    if (shared_font) { pr.kind = "job_seg"; pr.a[1] = 0; }
     if (g_pseudo_bias && g_pseudo_focus && g_pseudo_focus < 0x110000) { pr.text.insert(pr.text.begin() + long(r.below(u32(pr.text.size() + 1))), g_pseudo_focus); if (pr.text.size() < 2) pr.text.insert(pr.text.begin(), 0x61); }
     p.ops.push_back(pr); p.ops.push_back(pr); p.ops.push_back(rep);
     g_pseudo_bias = 0; g_pseudo_focus = 0;
@@ -214,7 +225,7 @@ static void run_hist(const Plan &p) {
     {
         World b; b.id = 2; b.leak_prop = "C08"; b.override_fn = all_overrides;
         bool first = true;
-        for (auto &op : p.ops) { if (op.kind == "make_face" && first) { OpResult r = exec_ext(b, op); first = false; if (r.v.size() && !r.v[0]) break; continue; } if (op.s == "probe" || op.s == "report") rb.push_back(exec_ext(b, op)); }
+        for (auto &op : p.ops) { if (op.kind == "make_face" && first) { OpResult r = exec_ext(b, op); first = false; if (r.v.size() && !r.v[0]) break; continue; } if (op.s == "probe-font") exec_ext(b, op); else if (op.s == "probe" || op.s == "report") rb.push_back(exec_ext(b, op)); }
     }
     if (ra.size() != rb.size()) { if (ra.size() > 0 || rb.size() > 0) violation("C08:face-acceptance-differs", strf("history world produced %zu probe results, twin %zu", ra.size(), rb.size())); return; }
     for (size_t i = 0; i < ra.size(); ++i) {
